@@ -26,6 +26,64 @@ fn position_size(svm: &hostsvm::Svm, p: &Pubkey) -> Option<(u128, u128, u128)> {
     load::<Position>(svm, p).map(|p| (p.state.size_in_usd, p.state.size_in_tokens, p.state.collateral_amount))
 }
 
+
+/// Prices of the last trade event written by the keeper (the prices the program executed with).
+fn ev_prices(w: &World) -> Option<Prices<u128>> {
+    let ev = load::<TradeData>(&w.svm, &w.event_buffer(&w.keeper, 0))?;
+    let tp = &ev.prices;
+    Some(Prices {
+        index_token_price: Price { min: tp.index.min, max: tp.index.max },
+        long_token_price: Price { min: tp.long.min, max: tp.long.max },
+        short_token_price: Price { min: tp.short.min, max: tp.short.max },
+    })
+}
+
+/// `check_liquidatable(prices, validate_min_collateral_usd = true / false, for_liquidation = true)` evaluated with
+/// the repository's own `Position::as_position` on the program's Position and Market accounts in `svm`.
+fn verdicts(
+    w: &World,
+    svm: &hostsvm::Svm,
+    position: &Pubkey,
+    prices: &Option<Prices<u128>>,
+) -> Option<(Option<gmsol_model::position::LiquidatableReason>, Option<gmsol_model::position::LiquidatableReason>)> {
+    use gmsol_model::PositionExt;
+    let prices = prices.as_ref()?;
+    let p: Position = load(svm, position)?;
+    let mk = w.markets.iter().find(|m| m.market_token == p.market_token)?;
+    let market: Market = load(svm, &mk.market)?;
+    let ap = p.as_position(&market).ok()?;
+    let a = ap.check_liquidatable(prices, true, true).ok()?;
+    let b = ap.check_liquidatable(prices, false, true).ok()?;
+    Some((a, b))
+}
+
+/// A liquidation succeeded: on the pre-state (brought up to date by the real `update_fees_state` instruction at the
+/// same clock and oracle prices, which is what order execution does first) the position must have been
+/// liquidatable under the *liquidation* thresholds at the prices the program recorded in the trade event.
+fn liquidation_was_due(sim: &Sim, pre: &hostsvm::Svm, position: &Pubkey, shard: u64, step: u64, m: &mut Monitor) {
+    let prices = ev_prices(&sim.w);
+    let mut w2 = sim.w.clone();
+    w2.svm = pre.clone();
+    let Some(p) = load::<Position>(&w2.svm, position) else { return };
+    let Some(mi) = w2.markets.iter().position(|mk| mk.market_token == p.market_token) else { return };
+    let keeper = w2.keeper;
+    let ix = w2.update_fees_state_ix(keeper, mi);
+    if w2.svm.process(&[ix], &[keeper]).is_err() {
+        m.count("liquidation_pre_state_update_failed");
+        return;
+    }
+    match verdicts(&w2, &w2.svm, position, &prices) {
+        None => m.count("liquidation_pre_state_verdict_not_computable"),
+        Some((Some(reason), _)) => {
+            m.count(&format!("liquidated_position_was_liquidatable:{reason:?}"));
+        }
+        Some((None, _)) => m.violation(
+            "C09:liquidate:succeeded_for_position_not_liquidatable_under_liquidation_thresholds",
+            json!({"shard": shard, "step": step, "position": position.to_string(), "history": sim.history}),
+        ),
+    }
+}
+
 fn sim_part(args: &Args, shard: u64, m: &mut Monitor) {
     // sized so that the minimum observation counts below are met with a wide margin at every seed
     // (the exchange workload also spends steps on GLV actions and ADL steering)
@@ -38,6 +96,7 @@ fn sim_part(args: &Args, shard: u64, m: &mut Monitor) {
                 m.eval();
                 if rec.ok() {
                     m.count("liquidation_succeeded");
+                    liquidation_was_due(&sim, &rec.pre, position, shard, step, m);
                     m.nontrivial(format!("liq:{position}").as_bytes());
                     match position_size(&sim.w.svm, position) {
                         None => m.count("liquidated_position_account_closed"),
@@ -59,7 +118,9 @@ fn sim_part(args: &Args, shard: u64, m: &mut Monitor) {
                 // an increase that completed?
                 let Some(o) = load::<Order>(&sim.w.svm, &a.addr) else { continue };
                 let Ok(kind) = o.params().kind() else { continue };
-                if !matches!(kind, OrderKind::MarketIncrease | OrderKind::LimitIncrease) {
+                let is_increase = matches!(kind, OrderKind::MarketIncrease | OrderKind::LimitIncrease);
+                let is_decrease = matches!(kind, OrderKind::MarketDecrease | OrderKind::LimitDecrease | OrderKind::StopLossDecrease);
+                if !is_increase && !is_decrease {
                     continue;
                 }
                 use gmsol_store::states::common::action::Action;
@@ -75,14 +136,33 @@ fn sim_part(args: &Args, shard: u64, m: &mut Monitor) {
                 let mut w2 = sim.w.clone();
                 if let Some((ixs, _)) = w2.position_cut_ixs(keeper, pos, None) {
                     m.eval();
-                    match w2.svm.process(&ixs, &[keeper]) {
-                        Ok(_) => m.violation(
+                    match (w2.svm.process(&ixs, &[keeper]), is_increase) {
+                        (Ok(_), true) => m.violation(
                             "C09:increase:position_liquidatable_right_after_successful_increase",
                             json!({"shard": shard, "step": step, "position": pos.to_string(), "history": sim.history}),
                         ),
-                        Err(_) => {
+                        (Err(_), true) => {
                             m.count("healthy_after_increase_confirmed_by_rejected_liquidation");
                             m.nontrivial(format!("inc:{pos}:{step}").as_bytes());
+                        }
+                        (Ok(_), false) => {
+                            // the decrease path does not re-validate the absolute minimum collateral value
+                            // (listed finding, judged at model level): only a position that is liquidatable for
+                            // another reason than that minimum is a new violation here
+                            let only_min_value = verdicts(&sim.w, &sim.w.svm, &pos, &ev_prices(&sim.w))
+                                .map(|(with_min, without_min)| with_min.is_some() && without_min.is_none());
+                            match only_min_value {
+                                Some(true) => m.count("open_after_decrease_below_min_collateral_value_only(listed_model_finding)"),
+                                Some(false) => m.violation(
+                                    "C09:decrease:position_liquidatable_right_after_successful_decrease",
+                                    json!({"shard": shard, "step": step, "position": pos.to_string(), "history": sim.history}),
+                                ),
+                                None => m.count("decrease_follow_up_verdict_not_computable"),
+                            }
+                        }
+                        (Err(_), false) => {
+                            m.count("healthy_after_decrease_confirmed_by_rejected_liquidation");
+                            m.nontrivial(format!("dec:{pos}:{step}").as_bytes());
                         }
                     }
                 }
@@ -121,6 +201,12 @@ fn adl_part(args: &Args, shard: u64, m: &mut Monitor) {
         let side = if is_long { "long" } else { "short" };
         let _ = w.set_market_config(mk, &format!("max_pnl_factor_for_{side}_adl"), max_adl);
         let _ = w.set_market_config(mk, &format!("min_pnl_factor_after_{side}_adl"), min_after);
+        // the other side gets clearly different (laxer or stricter) values, so that a limit or a floor looked up for
+        // the wrong side shows
+        let other = if is_long { "short" } else { "long" };
+        let lax = rng.bool();
+        let _ = w.set_market_config(mk, &format!("max_pnl_factor_for_{other}_adl"), if lax { 1 } else { UNIT });
+        let _ = w.set_market_config(mk, &format!("min_pnl_factor_after_{other}_adl"), if lax { 0 } else { max_adl });
         let mut btc_p = 60_000 * E18;
         let publish = |w: &mut World, btc_p: u128| {
             let _ = w.set_price(btc, btc_p - btc_p / 10_000, btc_p, btc_p + btc_p / 10_000);
@@ -197,8 +283,15 @@ fn adl_part(args: &Args, shard: u64, m: &mut Monitor) {
                             short_token_price: Price { min: tp.short.min, max: tp.short.max },
                         };
                         let (Some(pre), Some(post)) = (pre_market, load::<Market>(&w.svm, &w.markets[mk].market)) else { continue };
-                        let limit = pre.pnl_factor_config(PnlFactorKind::ForAdl, is_long).unwrap_or(0);
-                        let min_after_cfg = pre.pnl_factor_config(PnlFactorKind::MinAfterAdl, is_long).unwrap_or(0);
+                        // the values this scenario configured for the side of the position (not read back through
+                        // the program's own kind/side -> config mapping, which is part of what is being checked)
+                        let (limit, min_after_cfg) = (max_adl, min_after);
+                        if pre.pnl_factor_config(PnlFactorKind::ForAdl, is_long).ok() != Some(max_adl)
+                            || pre.pnl_factor_config(PnlFactorKind::MinAfterAdl, is_long).ok() != Some(min_after)
+                        {
+                            m.violation("C09:adl:pnl_factor_config_of_the_wrong_side_or_kind", json!({"shard": shard, "round": round, "is_long": is_long,
+                                "configured_limit": max_adl.to_string(), "configured_min_after": min_after.to_string()}));
+                        }
                         let f_pre = pre.pnl_factor(&prices, is_long, true);
                         let f_post = post.pnl_factor(&prices, is_long, true);
                         let (Ok(f_pre), Ok(f_post)) = (f_pre, f_post) else {
